@@ -706,7 +706,13 @@ class XsdElement(XsdComponent, ParticleMixin,
                 inherited.update((k, v) for k, v in obj.attrib.items() if k in self.inheritable)
             else:
                 inherited = {k: v for k, v in obj.attrib.items() if k in self.inheritable}
+            # Scope the inherited attributes to the subtree using a copy of the context
+            # that still shares the collectors of errors, IDs and identities.
+            parent_context = context
             context = _copy(context)
+            context.errors = parent_context.errors
+            context.id_map = parent_context.id_map
+            context.identities = parent_context.identities
             context.inherited = inherited
 
         # Checks the xsi:nil attribute of the instance
